@@ -48,6 +48,12 @@ def model(c, runs):
                          cfg=cfg_text(constants=dict(BASE, FixRace=True, HoldBack=False, OpsA=ops_a, OpsB=ops_b), invariants=INVS)))
         jobs.append(dict(name="hold-back repair, liveness with a local close()", module="Channel",
                          cfg=cfg_text(constants=dict(BASE, OpsA={"send", "close"}, OpsB={"close"}, W0=3, Thresh=0), invariants=[], **LIVE)))
+    # a writer parked on an exhausted window when shutdown_write / close come from another thread and the peer's adjust arrives
+    parked = dict(BASE, OpsA={"sendall", "shutdown_write", "close"}, OpsB={"recv"}, W0=2, SendN=3, Thresh=0)
+    jobs.append(dict(name="hold-back repair: writer parked at window 0, then shutdown_write / close, then the peer's window adjust", module="Channel",
+                     cfg=cfg_text(constants=parked, invariants=MINVS)))
+    jobs.append(dict(name="sensitivity: no_exit_recheck (woken by an adjust, the writer does not look at eof_sent / closed again)", module="Channel",
+                     expect="NoDataAfterCtl", cfg=cfg_text(constants=dict(parked, Mut="no_exit_recheck"), invariants=MINVS)))
     # the pinned tree: message built under the lock, handed over after releasing it
     for name, a, b in PAIRS:
         jobs.append(dict(name="pinned hand-over outside the lock: _send vs %s" % name, module="Channel", expect="NoDataAfterCtl",
@@ -62,7 +68,7 @@ def model(c, runs):
     jobs.append(dict(name="simulate (spec -> code)", module="Channel_Gen", simulate=True, expect="behaviours",
                      cfg=cfg_text(spec="GSpec", constants=dict(GEN, HoldBack=dc.holdback()), invariants=["GenEmit"]),
                      kw=dict(workers=1, simulate="num=%d" % (40 if c.quick else 500), extra=["-depth", "150", "-seed", str(c.seed + 1)])))
-    res = dc.mc_batch(c, jobs)
+    res = dc.mc_batch(c, jobs, parallel=10)
     gen = dict(GEN, HoldBack=dc.holdback())
     # RP 1: drive the real code along each counterexample
     for name, a, b in PAIRS:
@@ -122,6 +128,13 @@ FIXED = [
     {"threads": {"a1": [("send", 100)], "a2": [("close",)]}},
     {"threads": {"a1": [("send_err", 100)], "a2": [("shutdown_write",)]}},
     {"threads": {"a1": [("sendall", 100)], "b1": [("close",)]}},
+    # a writer parked at window 0 (first send takes the whole window), then shutdown_write / shutdown(2) / close from another
+    # thread, then the peer reads and its WINDOW_ADJUST is delivered - every order of adjust vs. EOF/CLOSE hand-over is a schedule
+    {"threads": {"a1": [("send", 32768), ("send", 100)], "a2": [("shutdown_write",)], "b1": [("recv", 65536)]}, "pkt": 65536},
+    {"threads": {"a1": [("sendall", 33000)], "a2": [("shutdown_rw",)], "b1": [("recv", 65536)]}, "pkt": 65536},
+    {"threads": {"a1": [("send_err", 32768), ("send_err", 100)], "a2": [("shutdown_write",)], "b1": [("recv_err", 65536)]}, "pkt": 65536},
+    {"threads": {"a1": [("send", 32768), ("send", 100)], "a2": [("close",)], "b1": [("recv", 65536)]}, "pkt": 65536},
+    {"threads": {"a1": [("sendall", 40000)], "a2": [("shutdown_write",), ("close",)], "b1": [("recv", 4096), ("recv", 65536)]}},
     {"threads": {"a1": [("close",)], "a2": [("close",)], "b1": [("close",)]}},
     {"threads": {"a1": [("shutdown_write",), ("close",)], "a2": [("shutdown_rw",)], "b1": [("shutdown_write",)]}},
     {"threads": {"a1": [("close",), ("send", 10), ("recv", 10), ("shutdown_write",)], "b1": [("close",), ("sendall", 10)]}},
@@ -149,8 +162,9 @@ def describe(clause, it, evs, l):
             if x["ev"] == "emit" and x["side"] == side and x["t"] in ("EOF", "CLOSE") and site == "?":
                 site = "_handle_close" if x["th"] in ("TA", "TB") else SITES.get(cur.get(x["th"]), cur.get(x["th"], "?"))
         key = "P_NoDataAfterCtl:_send/%s" % site
-        what = ("%s handed to the transport after the side's own EOF/CLOSE: Channel._send built it under the channel lock and handed it over "
-                "after releasing it, %s emitted EOF/CLOSE in between. Wire events: %s" % (e["t"], site, dc.brief(evs, l)))
+        what = ("%s handed to the transport after the side's own EOF/CLOSE (EOF/CLOSE came from %s): either Channel._send's message was built "
+                "under the channel lock and overtaken before its hand-over, or a writer woken in the window wait allocated window without "
+                "looking at eof_sent / closed again. Wire events: %s" % (e["t"], site, dc.brief(evs, l)))
     else:
         what = "%s fails after event %d of a schedule (%s): %s" % (clause, l, it["how"], dc.brief(evs, min(l, len(evs))))
     return key, what + " | program %r" % (it["prog"]["threads"],), dc.replay_record(it)
@@ -164,7 +178,8 @@ def run(c):
     laps = {"model+replay_s": round(time.time() - t0, 1)}
     progs = []
     for p in FIXED:
-        prog = {"par": {"win": {"A": 32768, "B": 32768}, "pkt": {"A": 4096, "B": 4096}, "tmo": {"A": "block", "B": "block"}},
+        pk = p.get("pkt", 4096)
+        prog = {"par": {"win": {"A": 32768, "B": 32768}, "pkt": {"A": pk, "B": pk}, "tmo": {"A": "block", "B": "block"}},
                 "threads": p["threads"]}
         if "fail" in p:
             prog["par"]["fail"] = p["fail"]
